@@ -236,9 +236,11 @@ def PROOFS():
     spans_intercept per term, the identity layer (ExpandedFactor / Subterm equality and hashing: what 'already used' means) and the
     absorption step (can_absorb / absorb) are under contract; its loops (pick_contrast, _simplify_subterm, _sorted_subsets) are not:
     bounded tier only."""
-    from ..contracts import categorical_c, variable_c, utils_c, matrices_c, call_resolver_c, transforms_c, contrasts_c, lemmas_c  # noqa: F401
+    from ..contracts import categorical_c, variable_c, utils_c, matrices_c, call_resolver_c, transforms_c, contrasts_c, lemmas_c, terms_c  # noqa: F401
     return [("vf.contracts.categorical_c", categorical_c.FUNCTIONS),
             ("vf.contracts.contrasts_c", contrasts_c.FUNCTIONS),
+            # helper terms are assembled from the term's components picked by name (create_extra_term): the first component of that name
+            ("vf.contracts.terms_c", ["formulae.terms.terms.Term.get_component"]),
             # the pair step of the simplification: can_absorb's guarantee is absorb's precondition; nothing of the shorter subterm is lost
             ("vf.contracts.lemmas_c", ["vf.proplemmas.c03.merge_step"]),
             # columns of an interaction are the pairwise products; the matrix is the terms' blocks side by side, one term per name
